@@ -33,38 +33,38 @@ type Squashed struct {
 type mdTarget struct {
 	Squashed `mapstructure:",squash"`
 
-	String    string               `mapstructure:"string"`
-	StringPtr *string              `mapstructure:"stringptr"`
-	Bool      bool                 `mapstructure:"bool"`
-	BoolPtr   *bool                `mapstructure:"boolptr"`
-	Int       int                  `mapstructure:"int"`
-	Int8      int8                 `mapstructure:"int8"`
-	Int64Ptr  *int64               `mapstructure:"int64ptr"`
-	Uint      uint                 `mapstructure:"uint"`
-	Uint8     uint8                `mapstructure:"uint8"`
-	Float32   float32              `mapstructure:"float32"`
-	Float64   float64              `mapstructure:"float64"`
-	Dur       time.Duration        `mapstructure:"dur"`
-	DurPtr    *time.Duration       `mapstructure:"durptr"`
-	MDur      metadata.Duration    `mapstructure:"mdur"`
-	MDurPtr   *metadata.Duration   `mapstructure:"mdurptr"`
-	Durs      []time.Duration      `mapstructure:"durs"`
-	DursPtr   *[]time.Duration     `mapstructure:"dursptr"`
-	Strs      []string             `mapstructure:"strs"`
-	StrsPtr   *[]string            `mapstructure:"strsptr"`
-	Ints      []int                `mapstructure:"ints"`
-	Bytes     []byte               `mapstructure:"bytes"`
-	Size      metadata.ByteSize    `mapstructure:"size"`
-	SizePtr   *metadata.ByteSize   `mapstructure:"sizeptr"`
-	Map       map[string]string    `mapstructure:"map"`
-	MapAny    map[string]any       `mapstructure:"mapany"`
-	Any       any                  `mapstructure:"any"`
-	Nested    Inner                `mapstructure:"nested"`
-	NestedPtr *Inner               `mapstructure:"nestedptr"`
-	Aliased   string               `mapstructure:"aliased" mapstructurealiases:"alias2,alias3"`
-	AliasedD  time.Duration        `mapstructure:"aliasedd" mapstructurealiases:"aliasedd2"`
-	Time      time.Time            `mapstructure:"time"`
-	Arr       [2]int               `mapstructure:"arr"`
+	String    string             `mapstructure:"string"`
+	StringPtr *string            `mapstructure:"stringptr"`
+	Bool      bool               `mapstructure:"bool"`
+	BoolPtr   *bool              `mapstructure:"boolptr"`
+	Int       int                `mapstructure:"int"`
+	Int8      int8               `mapstructure:"int8"`
+	Int64Ptr  *int64             `mapstructure:"int64ptr"`
+	Uint      uint               `mapstructure:"uint"`
+	Uint8     uint8              `mapstructure:"uint8"`
+	Float32   float32            `mapstructure:"float32"`
+	Float64   float64            `mapstructure:"float64"`
+	Dur       time.Duration      `mapstructure:"dur"`
+	DurPtr    *time.Duration     `mapstructure:"durptr"`
+	MDur      metadata.Duration  `mapstructure:"mdur"`
+	MDurPtr   *metadata.Duration `mapstructure:"mdurptr"`
+	Durs      []time.Duration    `mapstructure:"durs"`
+	DursPtr   *[]time.Duration   `mapstructure:"dursptr"`
+	Strs      []string           `mapstructure:"strs"`
+	StrsPtr   *[]string          `mapstructure:"strsptr"`
+	Ints      []int              `mapstructure:"ints"`
+	Bytes     []byte             `mapstructure:"bytes"`
+	Size      metadata.ByteSize  `mapstructure:"size"`
+	SizePtr   *metadata.ByteSize `mapstructure:"sizeptr"`
+	Map       map[string]string  `mapstructure:"map"`
+	MapAny    map[string]any     `mapstructure:"mapany"`
+	Any       any                `mapstructure:"any"`
+	Nested    Inner              `mapstructure:"nested"`
+	NestedPtr *Inner             `mapstructure:"nestedptr"`
+	Aliased   string             `mapstructure:"aliased" mapstructurealiases:"alias2,alias3"`
+	AliasedD  time.Duration      `mapstructure:"aliasedd" mapstructurealiases:"aliasedd2"`
+	Time      time.Time          `mapstructure:"time"`
+	Arr       [2]int             `mapstructure:"arr"`
 	NoTag     string
 	unexp     string `mapstructure:"unexp"` //nolint
 }
@@ -78,10 +78,6 @@ func (d *Dec) DecodeString(s string) error {
 	*d = Dec(len(s))
 	return nil
 }
-
-type DecV string
-
-func (d DecV) DecodeString(s string) error { return nil }
 
 type cfgTarget struct {
 	String     string         `mapstructure:"string"`
@@ -109,7 +105,6 @@ type cfgTarget struct {
 	TimePtr    *time.Time     `mapstructure:"timeptr"`
 	Dec        Dec            `mapstructure:"dec"`
 	DecPtr     *Dec           `mapstructure:"decptr"`
-	DecV       DecV           `mapstructure:"decv"`
 	Nested     Inner          `mapstructure:"nested"`
 	NestedPtr  *Inner         `mapstructure:"nestedptr"`
 	Squashed   `mapstructure:",squash"`
@@ -148,7 +143,7 @@ var coreValues = map[string]bool{"nil": true, `""`: true, `"x"`: true, `"1"`: tr
 	"int 1": true, "[]any{1,\"x\"}": true, "map[string]any{a:1}": true, "(*string)(nil)": true}
 
 var mdNames = []string{"string", "stringptr", "bool", "boolptr", "int", "int8", "int64ptr", "uint", "uint8", "float32", "float64", "dur", "durptr", "mdur", "mdurptr", "durs", "dursptr", "strs", "strsptr", "ints", "bytes", "size", "sizeptr", "map", "mapany", "any", "nested", "nestedptr", "aliased", "alias2", "ALIAS3", "aliasedd", "aliasedd2", "time", "arr", "emb", "embalias", "embalias2", "NoTag", "unexp", "STRING", "Dur", "unknown", ""}
-var cfgNames = []string{"string", "stringptr", "bool", "boolptr", "int", "intptr", "int8", "int16", "int32", "int64", "uint", "uint8", "uint16", "uint32", "uint64", "uint64ptr", "float32", "float64", "float64ptr", "dur", "durptr", "time", "timeptr", "dec", "decptr", "decv", "nested", "nestedptr", "emb", "embalias", "strs", "ints", "durs", "map", "mapint", "any", "arr", "STRING", "unknown", ""}
+var cfgNames = []string{"string", "stringptr", "bool", "boolptr", "int", "intptr", "int8", "int16", "int32", "int64", "uint", "uint8", "uint16", "uint32", "uint64", "uint64ptr", "float32", "float64", "float64ptr", "dur", "durptr", "time", "timeptr", "dec", "decptr", "nested", "nestedptr", "emb", "embalias", "strs", "ints", "durs", "map", "mapint", "any", "arr", "STRING", "unknown", ""}
 var coreNames = map[string]bool{"string": true, "bool": true, "boolptr": true, "int": true, "dur": true, "mdurptr": true, "durs": true, "strsptr": true, "size": true, "nested": true, "aliased": true, "alias2": true,
 	"intptr": true, "time": true, "dec": true, "decptr": true, "uint8": true}
 
